@@ -210,7 +210,7 @@ def check_chunk(chunk):
 
 
 def programs(tier):
-    names = [f for f in _cwl.FEATURES if f != "nested_empty"]
+    names = list(_cwl.FEATURES)
     if tier == "quick":
         sel = ["expr", "clt", "scatter3", "scatter0", "flat", "when_false", "when_scatter", "pick_all", "merge_flat", "subwf", "loop3",
                "loop3_all", "record", "file_out", "file_scatter", "file", "dir_out", "dir_scatter", "dir_use"]
